@@ -163,6 +163,11 @@ def _socks_callback(ck, method):
         return tgt
     ex.overrides.append((re.compile(r'Context::borrow_client_stream$'), borrow_client_stream))
     ex.overrides.append((re.compile(r'Context::target$'), target))
+    # the proxy's own addresses on the upstream side are whatever the connector bound / reached: any socket address, either family
+    import contracts_async as CA_
+    local, remote = CA_.sym_socketaddr(ex, st, 'upstream_local'), CA_.sym_socketaddr(ex, st, 'upstream_remote')
+    ex.overrides.append((re.compile(r'Context::local_addr$'), lambda ctx: local))
+    ex.overrides.append((re.compile(r'Context::server_addr$'), lambda ctx: remote))
     me = Agg('Callback', {0: ver, 1: C.mk_option(ex, None)})
     # whatever else the callback object carries (bookkeeping flags) is as the listener creates it: at its initial value
     from specs.quiccache import _default_of
@@ -173,7 +178,7 @@ def _socks_callback(ck, method):
             d = _default_of(ex, cb_types.get(f, ''))
             if d is not None:
                 me = me.with_field(i, d)
-    ex.inputs = dict(parts, version=ver, client_stream_present=has_stream)
+    ex.inputs = dict(parts, version=ver, client_stream_present=has_stream, upstream_local_family=local.discr)
     args = [Ref(st.alloc(me), ()), Ref(st.alloc(Opaque('context::Context', 'ctx')), ())]
     if method == 'on_error':
         args.append(Opaque('easy_error::Error', 'the-error'))
@@ -212,6 +217,10 @@ def _socks_cb_replay_plan(ob):
     if f is not None and (ob.target or '').startswith('socks Callback::') and ob.label.startswith('C14/callbacks/'):
         cases = [{'driver': 'error_reply_lock', 'args': {'version': v}} for v in (5, 4)]
         return 'sockslisten', cases, lambda o: o.get('connection_lock_free_after_reply') is False
+    if f is not None and (ob.target or '') == 'socks Callback::on_connect' and 'success-callback-sends-a-complete-flushed-reply' in ob.label:
+        # the real handshake, then what the dispatcher does after a successful connect: on_connect, then the relay; the origin speaks first
+        cases = [{'driver': 'tunnel_after_reply', 'args': {'version': v, 'local_v6': l6}} for v in (4, 5) for l6 in (True, False)]
+        return 'sockslisten', cases, lambda o: o.get('reply_read') is True and o.get('tunnel_bytes_intact') is False
     if f is None or not (ob.target or '').startswith('socks Callback::') or ob.label.startswith('C0'):
         return None
     from specs.codec import _target_args, _host_is_text
@@ -384,6 +393,8 @@ def _socks_listener_replay_plan(ob):
     udp = bool(i.get('allow_udp', True))
     if ob.label == 'C07/socks-listener/routed-only-after-credentials-check-passed':
         cases = [{'driver': 'socks_listener', 'args': {'cmd': cmd, 'allow_udp': udp, 'creds': c}} for c in ('wrong', 'none')]
+        # SOCKS4 / 4a clients (a user id is all they present): the command of a version 4 request is CONNECT
+        cases += [{'driver': 'socks_listener', 'args': {'cmd': 1, 'allow_udp': udp, 'creds': c}} for c in ('v4-unknown', 'v4a-known-name', 'v4-empty')]
         return 'sockslisten', cases, lambda o: o.get('routed') is True and o.get('creds') != 'right'
     if ob.label == 'C06/socks-listener/only-connect-and-allowed-udp-are-routed' and not (cmd == 1 or (cmd == 3 and udp)):
         return 'sockslisten', {'driver': 'socks_listener', 'args': {'cmd': cmd, 'allow_udp': udp, 'creds': 'right'}}, lambda o: o.get('routed') is True
